@@ -675,6 +675,9 @@ func checkC20(c *Ctx) int {
 	table, tr := c20LoadTable(c)
 	impls := c20Endpoints()
 	for i := range table.Endpoints {
+		if table.Endpoints[i].Flags.has("rpc") {
+			continue // commands of the RPC path: c20_rpc.go
+		}
 		if impls[table.Endpoints[i].Name] == nil {
 			infra("no harness implementation of endpoint %s", table.Endpoints[i].Name)
 		}
@@ -698,6 +701,9 @@ func checkC20(c *Ctx) int {
 	for e := 1; e <= len(table.Endpoints); e++ {
 		cs := byE[e]
 		if only != "" && !strings.HasPrefix(table.Endpoints[e-1].Name, only) {
+			continue
+		}
+		if table.Endpoints[e-1].Flags.has("rpc") {
 			continue
 		}
 		for off := 0; off < len(cs); off += chunk {
@@ -883,6 +889,7 @@ func checkC20(c *Ctx) int {
 	if only == "" || only == "wf" {
 		d.wellFormed(table.AnnCases, table.NJCases)
 	}
+	c20RPC(c, run, d, table) // the rows of the RPC command path (c20_rpc.go)
 	// summary
 	var groups []string
 	more := 0
